@@ -39,12 +39,15 @@ class Cmp:
     self.bad: List[Tuple[str, float, float]] = []
     self.nfields = 0
     self.worst = 0.0
+    self.worst_name = ""
 
   def close(self, name: str, got, exp, tol: Optional[float] = None) -> bool:
     self.nfields += 1
     e, s = err(got, exp)
     t = self.tol if tol is None else tol
-    self.worst = max(self.worst, e / s / t if np.isfinite(e) else 1e9)
+    rr = e / s / t if np.isfinite(e) else 1e9
+    if rr > self.worst:
+      self.worst, self.worst_name = rr, name
     if not (e <= t * s):
       self.bad.append((name, e, s))
       return False
